@@ -644,6 +644,16 @@ def main(argv):
         log("UNDECIDED: %s" % fatal)
 
     # ---------------- verdict
+    # A Verus failure carries no counterexample: it may mean "the proof hints no longer fit" on a correct rewrite. Where a
+    # unit names a TWIN (a loop-free full-domain Kani proof of the same contract, complete and replayable) that ran in this run:
+    # twin discharged => the Verus failure is a lost proof, not a violation (undecided); twin failed => the twin reports it.
+    by_name = {r.unit.name: r for r in results}
+    for r in results:
+        tw = r.unit.extra.get("twin")
+        if r.status == "violation" and r.unit.engine == "verus" and tw and tw in by_name:
+            if by_name[tw].status == "discharged":
+                r.status = "undecided"
+                r.reason = "verus proof no longer goes through (%s) but the complete loop-free Kani twin %s verifies the same contract on this tree: proof hints lost, not a violation" % (r.reason[:160], tw)
     viol = [r for r in results if r.status == "violation"]
     und = [r for r in results if r.status == "undecided"]
     known = [r for r in results if r.status == "known"]
